@@ -379,14 +379,15 @@ def judge(run, outcome, fired, before, after, ref):
 def _child_scenario(note_fd, sc, scdir):
     """Executes the runs of one scenario; writes begin/end notes around each run so the
     parent can judge a killed run from the file system alone."""
-    out = os.path.join(scdir, "out", "out.pqr")
+    out_name = sc.get("out_name") or "out.pqr"
+    out = os.path.join(scdir, "out", out_name)
     os.makedirs(os.path.dirname(out), exist_ok=True)
     pre = sc.get("pre", "absent")
     if pre == "sentinel":
         with open(out, "wb") as fh:
             fh.write(SENTINEL)
     elif isinstance(pre, dict):
-        obs = execute_run({"cfg": pre["run"]}, scdir, "pre", note_fd)
+        obs = execute_run({"cfg": pre["run"]}, scdir, "pre", note_fd, out_name=out_name)
         if obs["outcome"] != "ok":
             return {"pre_failed": obs["exc_text"]}
     results = []
@@ -397,7 +398,7 @@ def _child_scenario(note_fd, sc, scdir):
                 fh.write(b)
         forkrun.note(note_fd, {"begin": i, "before_stat": runner.stat_sig(out),
                                "before_exists": b is not None})
-        obs = execute_run(run, scdir, i, note_fd)
+        obs = execute_run(run, scdir, i, note_fd, out_name=out_name)
         a = runner.read_bytes(out)
         if a is not None:
             with open(os.path.join(scdir, f"after-{i}.bin"), "wb") as fh:
@@ -420,7 +421,7 @@ def run_scenario(sc, scdir, refs):
     if fin is not None and "pre_failed" in fin:
         return {"violation": None, "notes": {"pre_failed": 1}, "fired": [], "steps": 0,
                 "outcomes": []}
-    out = os.path.join(scdir, "out", "out.pqr")
+    out = os.path.join(scdir, "out", sc.get("out_name") or "out.pqr")
     begins = {n["begin"]: n for n in cr.notes if "begin" in n}
     ends = {n["end"]: n for n in cr.notes if "end" in n}
     deaths = [n["death"] for n in cr.notes if "death" in n]
@@ -485,8 +486,12 @@ def build_scenarios(cfg, prof, seed, tier, prev_cfg):
 
     def add(tag, runs, pre=None):
         nonlocal k
-        sc.append({"tag": tag, "pre": pre if pre is not None else _pre_cycle(k, prev_cfg),
-                   "runs": runs})
+        one = {"tag": tag, "pre": pre if pre is not None else _pre_cycle(k, prev_cfg),
+               "runs": runs}
+        if any(r.get("entry") in ("cli", "cli_module") for r in runs):
+            one["out_name"] = ("out.pqr", "result", "a.b.pqr", "x y.pqr", "OUT.PQR",
+                               "out.pqr.txt")[k % 6]
+        sc.append(one)
         k += 1
 
     # --- 1. stage boundaries
@@ -904,7 +909,12 @@ def trigger_scenarios(quick=False):
             run = {"cfg": cfg, "entry": entries[ei], "expect": "fail", "want_ref": False}
             if faults:
                 run["faults"] = faults
-            T.append({"tag": "trigger", "name": name, "pre": pres[pi], "runs": [run]})
+            sc = {"tag": "trigger", "name": name, "pre": pres[pi], "runs": [run]}
+            if ei:
+                # the CLI derives a log-file name from the output path: vary its spelling
+                sc["out_name"] = ("out.pqr", "result", "a.b.pqr", "x y.pqr", "OUT.PQR",
+                                  "out.pqr.txt")[(k + pi) % 6]
+            T.append(sc)
 
     # unreadable or empty input
     for kind in ("empty", "header", "html", "binary"):
@@ -1019,6 +1029,28 @@ def trigger_scenarios(quick=False):
     t("half-sidechains-stripped", dict({"item": "1AJJ.pdb", "window": [0, 20]},
                                        damage=[[i, "keep_backbone"] for i in range(0, 20, 2)],
                                        argv=["--ff=PARSE"]))
+    # ligand problems the MOL2 reader / parameteriser rejects (structure carries the ligand's
+    # hetero atoms; each verified loud on the repaired tree).  An HTML or empty MOL2 is NOT
+    # in this list: pdb2pqr then merely drops the unparameterised hetero atoms (DESIGN 10.5).
+    LG = {"item": "cterm_hid.pdb", "lig_het": "ethanol.mol2",
+          "argv": ["--ff=AMBER", "--ligand={ligand}"], "files": {"ligand": "ethanol.mol2"}}
+    mol = corpus.load("ethanol.mol2")
+    a_line = next(l for l in mol.splitlines() if " CAA " in l)
+    bsec = mol.index("@<TRIPOS>BOND")
+    b_line = mol[bsec:].splitlines()[1]
+    for nm, fc in (
+            ("cut-in-atom-record", {"kind": "short", "at": mol.index(a_line) + 30}),
+            ("cut-in-bond-record", {"kind": "short", "at": bsec + len("@<TRIPOS>BOND\n") + 6}),
+            ("nonnumeric-coordinate", {"kind": "replace", "old": "-19.770", "new": "-19.7x0"}),
+            ("unknown-atom-type", {"kind": "replace", "old": "C.3       1 DRG",
+                                   "new": "Xx.9      1 DRG"}),
+            ("duplicate-atom-names", {"kind": "replace", "old": " HAB ", "new": " HAA "}),
+            ("bond-to-missing-atom", {"kind": "replace", "old": b_line,
+                                      "new": b_line.replace(b_line.split()[2], "99", 1)})):
+        t(f"ligand-mol2-{nm}", dict(LG, file_content={"ligand": fc}))
+    t("ligand-without-hydrogens-nonintegral-charge", dict(LG, lig_drop_h=True))
+    t("ligand-without-hydrogens-nonintegral-charge:parse-noopt",
+      dict(LG, lig_drop_h=True, argv=["--ff=PARSE", "--noopt", "--ligand={ligand}"]))
     # more structure-level damage (each verified loud on the repaired tree)
     B14 = {"item": "1AJJ.pdb", "window": [0, 14], "waters": 6}
     t("chain-of-ca-atoms-only", dict(B14, damage=[[i, "ca_only"] for i in range(14)], argv=amber))
